@@ -456,14 +456,17 @@ impl LightClientProtocol {
                         } else {
                             // A kept record which reaches beyond the fork point may list blocks
                             // of the old chain: a block which was marked as proved (it was the
-                            // proved tip) has to be proved against the new last state.
-                            if start_number.saturating_add(blocks_count) > to_number + 1
-                                && blocks.iter().any(|(_, proved)| *proved)
-                            {
+                            // proved tip) has to be proved against the new last state. And its
+                            // range ends at the fork point now: the blocks after it are filtered
+                            // again, the scripts must not be marked as filtered beyond it.
+                            if start_number.saturating_add(blocks_count) > to_number + 1 {
                                 let blocks =
                                     blocks.into_iter().map(|(hash, _)| (hash, false)).collect();
-                                self.storage
-                                    .add_matched_blocks(start_number, blocks_count, blocks);
+                                self.storage.add_matched_blocks(
+                                    start_number,
+                                    to_number + 1 - start_number,
+                                    blocks,
+                                );
                             }
                             start_number_opt = Some(start_number);
                             break;
